@@ -7,7 +7,7 @@ CLAIMED = {
 }
 def sched(txt): return txt
 
-T_SCHED = "stateless exhaustive exploration of the real server under a controlled scheduler (all task orders, select! start indices, preemptions and whole-thread stalls at hooked points within a deviation bound), history oracle"
+T_SCHED = "stateless exhaustive exploration of the real server under a controlled scheduler (all task orders incl. long postponement of a task, select! start indices, preemptions and whole-thread stalls at hooked points, within a deviation bound), history oracle"
 T_SEQ = "exhaustive enumeration of all operation sequences up to a depth on the real server, compared step by step with a reference model; plus deviation-bounded schedule exploration of litmus programs"
 T_INPUT = "bounded-exhaustive enumeration of inputs on the real code against an independent reference"
 T_FAULT = "exhaustive enumeration of endpoint answer sequences (fault injection at the transport seam) on the real push loop under the controlled scheduler"
